@@ -30,7 +30,8 @@ CLAIMS = {
 }
 
 NEGATIVE = ["nodirty_t", "nodirty_f", "nodirty_r", "nodirty_ca", "nodirty_acc", "nodirty_am", "nodirty_ma",
-            "guard_filter_kind", "guard_transform_class", "gradient_no_refresh", "map_not_validated"]
+            "guard_filter_kind", "guard_filter_prefix", "guard_transform_class", "guard_transform_prefix",
+            "guard_dof_x_only", "gradient_no_refresh", "map_not_validated"]
 ORDER = ["t", "f", "r", "c", "sc", "cc", "am", "ao", "ca", "acc", "pal", "d", "dof", "ma"]
 TYPES = {"bits": 0, "indexed": 1, "gradient": 2, "solid": 3}
 ROLES = {"src": 0, "mask": 1, "dst": 2}
@@ -41,7 +42,7 @@ def mc(chk, tier):
     mod = os.path.join(base, "ImagePropMC.tla")
     runs = [("ImagePropMC.cfg", False)]
     if tier == "thorough":
-        runs.append(("ImagePropMC_d6.cfg", False))
+        runs.append(("ImagePropMC_deep.cfg", False))
     runs += [("ImagePropMC_neg_%s.cfg" % b, True) for b in NEGATIVE]
     rejected = []
     for cfg, neg in runs:
@@ -55,12 +56,12 @@ def mc(chk, tier):
     chk.extra["negative_configs_rejected"] = rejected
 
 
-def gen(mode, depth, seed, n=0, tag="igen"):
+def gen(mode, depth, seed, n=0, tag="igen", focus=False):
     path = os.path.join(vf.SPEC, "gen", "ImageGen.tla")
     cfg = os.path.join(vf.workdir(tag), "ImageGen.cfg")
     open(cfg, "w").write('SPECIFICATION GenSpec\nCONSTANTS\n  Img = {1}\n  GKeys = {1}\n  MaxHeld = 1\n  Bugs = {}\n'
                          '  Depth = %d\n  Types = {"bits", "indexed", "gradient", "solid"}\n'
-                         'INVARIANT EmitBehaviour\n' % depth)
+                         '  Focus = %s\nINVARIANT EmitBehaviour\n' % (depth, "TRUE" if focus else "FALSE"))
     if mode == "bfs":
         r = vf.run_tlc(path, cfg=cfg, workers=4, timeout=1500, xmx="6g", tag=tag)
     else:
@@ -77,16 +78,29 @@ def gen(mode, depth, seed, n=0, tag="igen"):
     return behs, r
 
 
-def to_script(beh, name, rng):
+def to_script(beh, name, rng, wide_dst=False):
     c = beh[0]
+    fmt, op = rng.randrange(9), rng.randrange(7)
+    if wide_dst:          # dithering shows only when a narrow destination is written by the wide pipeline
+        fmt, op = rng.choice([2, 5]), 4
     out = ["reset %s" % name,
-           "config %d %d %d %d %d %d %d %d" % (TYPES[c["type"]], ROLES[c["role"]], rng.randrange(9), rng.randrange(7),
+           "config %d %d %d %d %d %d %d %d" % (TYPES[c["type"]], ROLES[c["role"]], fmt, op,
                                               rng.randrange(3), rng.randrange(128), rng.randrange(1, 1 << 20), c["r0"])]
     for s in beh[1:]:
         out.append("set %d %d %d %s" % (ORDER.index(s["j"]), s["v"], s["r"],
                                         " ".join(str(s["want"][k]) for k in ORDER)))
     out.append("end")
     return out
+
+
+BITSY = [("bits", "src"), ("bits", "mask"), ("indexed", "src"), ("indexed", "mask")]
+SRCMASK = BITSY + [("gradient", "src"), ("gradient", "mask")]
+PREF = {    # configurations (type, role) in which a change of the property changes the pixels
+    "t": SRCMASK, "f": BITSY, "r": SRCMASK, "c": [("bits", "dst")], "sc": BITSY, "cc": BITSY,
+    "am": [("bits", "src"), ("bits", "dst")], "ao": [("bits", "src"), ("bits", "dst")], "ma": [("bits", "src"), ("bits", "dst")],
+    "ca": [("bits", "mask"), ("gradient", "mask"), ("solid", "mask")], "acc": [("bits", "src"), ("bits", "mask"), ("bits", "dst")],
+    "pal": [("indexed", "src"), ("indexed", "mask")], "d": [("bits", "dst")], "dof": [("bits", "dst")],
+}
 
 
 def hand(typ, role, cfg, steps):
@@ -103,22 +117,28 @@ def hand(typ, role, cfg, steps):
 
 HANDWRITTEN = [
     # the situations the statement's rationale names: same object, different value, after it has been used
-    hand("bits", "src", "0 0 0 0 11", [("r", 2, 1), ("r", 0, 1), ("r", 3, 1), ("r", 1, 1), ("t", 3, 1), ("f", 1, 1),
-                                         ("f", 0, 1), ("t", 1, 1), ("t", 2, 1), ("t", 0, 1)]),
+    hand("bits", "src", "0 0 0 1 11", [("r", 2, 1), ("r", 0, 1), ("r", 3, 1), ("r", 1, 1), ("t", 2, 1), ("f", 1, 1),
+                                         ("f", 0, 1), ("t", 1, 1), ("t", 5, 1), ("t", 0, 1)]),
     hand("gradient", "src", "0 0 0 0 12", [("r", 1, 1), ("r", 2, 1), ("r", 3, 1), ("r", 0, 1), ("t", 2, 1), ("r", 2, 1)]),
-    hand("gradient", "src", "0 1 1 2 13", [("r", 3, 1), ("r", 1, 1), ("t", 4, 1), ("r", 0, 1)]),
+    hand("gradient", "src", "0 1 1 2 13", [("r", 3, 1), ("r", 1, 1), ("t", 9, 1), ("r", 0, 1)]),
     hand("gradient", "mask", "0 0 2 0 14", [("r", 2, 1), ("ca", 1, 1), ("r", 0, 1), ("ca", 0, 1)]),
-    hand("bits", "src", "0 0 0 1 15", [("t", 3, 0), ("f", 2, 1), ("f", 4, 1), ("f", 3, 1), ("f", 2, 1), ("f", 5, 1),
-                                         ("f", 1, 1), ("f", 4, 1)]),
-    hand("bits", "src", "2 0 0 0 16", [("am", 1, 1), ("ma", 1, 1), ("am", 2, 1), ("ao", 1, 1), ("am", 1, 1), ("ma", 0, 1),
-                                         ("am", 0, 1)]),
-    hand("bits", "dst", "0 0 0 0 17", [("am", 1, 1), ("acc", 1, 1), ("ma", 1, 1), ("c", 2, 1), ("am", 2, 1), ("acc", 0, 1),
-                                         ("c", 0, 1), ("am", 0, 1)]),
-    hand("bits", "dst", "2 4 0 16 18", [("d", 1, 1), ("dof", 1, 1), ("d", 2, 1), ("d", 0, 1), ("dof", 0, 1)]),
+    # kernels of one size differing in one coefficient; same kernel from another buffer; other size; separable
+    hand("bits", "src", "0 0 0 1 15", [("t", 2, 0), ("f", 2, 1), ("f", 6, 1), ("f", 3, 1), ("f", 5, 1), ("f", 4, 1),
+                                         ("f", 7, 1), ("f", 2, 1), ("f", 8, 1), ("f", 11, 1), ("f", 10, 1), ("f", 9, 1),
+                                         ("f", 8, 1), ("f", 1, 1), ("f", 6, 1)]),
+    # every entry of the matrix on its own
+    hand("bits", "src", "0 1 0 2 23", [("t", v, 1) for v in (2, 3, 4, 5, 6, 7, 8, 9, 10, 11, 2, 1, 11, 0)]),
+    hand("bits", "src", "2 0 0 0 16", [("am", 1, 1), ("ma", 1, 1), ("am", 2, 1), ("ao", 1, 1), ("ao", 3, 1), ("ao", 2, 1),
+                                         ("am", 1, 1), ("ma", 0, 1), ("am", 0, 1)]),
+    hand("bits", "dst", "0 0 0 0 17", [("am", 1, 1), ("acc", 1, 1), ("ma", 1, 1), ("c", 2, 1), ("c", 3, 1), ("c", 4, 1),
+                                         ("am", 2, 1), ("acc", 0, 1), ("c", 0, 1), ("am", 0, 1)]),
+    hand("bits", "dst", "2 4 0 16 18", [("d", 1, 1), ("dof", 1, 1), ("dof", 3, 1), ("dof", 2, 1), ("d", 2, 1), ("d", 0, 1),
+                                          ("dof", 0, 1)]),
     hand("bits", "mask", "0 0 0 0 19", [("ca", 1, 1), ("ca", 0, 1), ("acc", 1, 1), ("ca", 1, 1), ("acc", 0, 1)]),
-    hand("bits", "src", "1 0 0 0 20", [("c", 1, 0), ("sc", 1, 0), ("cc", 1, 1), ("c", 2, 1), ("cc", 0, 1), ("cc", 1, 0),
-                                         ("sc", 0, 1), ("c", 0, 1)]),
-    hand("indexed", "src", "0 0 0 0 21", [("pal", 2, 1), ("pal", 1, 1), ("acc", 1, 1), ("pal", 2, 1), ("r", 1, 1)]),
+    hand("bits", "src", "1 0 0 0 20", [("c", 1, 0), ("sc", 1, 0), ("cc", 1, 1), ("c", 2, 1), ("c", 3, 1), ("cc", 0, 1),
+                                         ("cc", 1, 0), ("sc", 0, 1), ("c", 0, 1)]),
+    hand("indexed", "src", "0 0 0 0 21", [("pal", 2, 1), ("pal", 1, 1), ("pal", 3, 1), ("acc", 1, 1), ("pal", 2, 1),
+                                            ("r", 1, 1)]),
     hand("solid", "src", "0 0 0 2 22", [("r", 1, 1), ("ca", 1, 1), ("t", 2, 1), ("am", 1, 1), ("am", 0, 1)]),
 ]
 
@@ -180,25 +200,45 @@ def run(prop, args):
     execs = []
     bfs1, r = gen("bfs", 1, args.seed, tag="igenb")
     chk.add_tlc(r, "behaviour generation (ImageGen, breadth-first: all histories of depth 1)")
-    bfs2, r = gen("bfs", 2, args.seed, tag="igenb")
-    chk.add_tlc(r, "behaviour generation (ImageGen, breadth-first: all histories of depth 2)")
-    # of the depth-2 histories: every one that calls the same setter twice (early-return guards), the others sampled
-    same = [b for b in bfs2 if b[1]["j"] == b[2]["j"] and b[0]["r0"] == 1]
-    other = [b for b in bfs2 if b[1]["j"] != b[2]["j"]]
-    bfs = bfs1 + same + rng.sample(other, min(len(other), 500 if quick else 10000))
-    chk.extra["depth2_same_setter_twice"] = len(same)
+    # set(v1); render; set(v2); render for ALL pairs of values of every setter (ImageGen with Focus = TRUE), each pair
+    # in a configuration in which the property shows (PREF) and in other configurations
+    foc, r = gen("bfs", 2, args.seed, tag="igenf", focus=True)
+    chk.add_tlc(r, "behaviour generation (ImageGen Focus: every pair of values of every setter, rendering between)")
+    groups = {}
+    for b in foc:
+        groups.setdefault((b[1]["j"], b[1]["v"], b[2]["v"]), []).append(b)
+    pairs = []
+    for key in sorted(groups):
+        cand = groups[key]
+        pref = [b for b in cand if (b[0]["type"], b[0]["role"]) in PREF[key[0]]]
+        rest = [b for b in cand if (b[0]["type"], b[0]["role"]) not in PREF[key[0]]]
+        if quick:
+            pairs += rng.sample(pref, min(len(pref), 2)) + rng.sample(rest, min(len(rest), 1))
+        else:
+            pairs += cand
+    chk.extra["setter_value_pairs"] = {"pairs": len(groups), "histories_replayed": len(pairs)}
+    pairs3 = []
+    if not quick:
+        pairs3, r = gen("generate", 3, args.seed + 1, n=1500, tag="igenf3", focus=True)
+        chk.add_tlc(r, "behaviour generation (ImageGen Focus, -generate depth 3)")
+    other, r = gen("generate", 2, args.seed + 2, n=400 if quick else 4000, tag="igen2")
+    chk.add_tlc(r, "behaviour generation (ImageGen, -generate depth 2)")
+    bfs = bfs1 + other
     rnd, r = gen("generate", 6, args.seed, n=500 if quick else 8000)
     chk.add_tlc(r, "behaviour generation (ImageGen, -generate depth 6)")
     chk.sample({"tlc_generated_history": [dict((k, v) for k, v in s.items() if k != "want") for s in rnd[0]]})
     for k, b in enumerate(bfs):
         execs.append(to_script(b, "bfs%d" % k, rng))
+    for k, b in enumerate(pairs + pairs3):
+        execs.append(to_script(b, "pair%d" % k, rng, wide_dst=(b[1]["j"] in ("d", "dof") and b[0]["role"] == "dst")))
     for k, b in enumerate(rnd):
         for rep in range(1 if quick else 2):        # the same history under different formats / operators / roles' data
             execs.append(to_script(b, "gen%d_%d" % (k, rep), rng))
     for k, h in enumerate(HANDWRITTEN):
         execs.append(["reset hand%d" % k] + h)
     chk.extra["executions"] = len(execs)
-    chk.extra["tlc_generated_histories"] = {"breadth_first": len(bfs), "generate_depth6": len(rnd),
+    chk.extra["tlc_generated_histories"] = {"breadth_first_depth1": len(bfs1), "generate_depth2": len(other),
+                                            "value_pairs": len(pairs) + len(pairs3), "generate_depth6": len(rnd),
                                             "handwritten": len(HANDWRITTEN)}
 
     # 3. execute on the real library (ASan build of /repo's working tree)
